@@ -5,8 +5,8 @@ from ..extra_c09 import extra_run
 globals().update(
     make(
         pid="C09",
-        props=["JaqalProofs/Props/C09.lean"],
-        targets=["JaqalProofs.Props.C09"],
+        props=["JaqalProofs/Props/C09.lean", "JaqalProofs/Props/C09Exec.lean"],
+        targets=["JaqalProofs.Props.C09", "JaqalProofs.Props.C09Exec"],
         diffs=[("harness.agents.pass1_diff", 700, 6000)],
         extra_run=extra_run,
         trusted=[
